@@ -385,3 +385,14 @@ ADDENDA10 = {
 }
 for _p, _t in ADDENDA10.items():
     CLAIMED[_p]['text'] = CLAIMED[_p]['text'].rstrip() + ' ' + _t
+
+# round 20
+ADDENDA11 = {
+    'C08': "(T, extended) no floor / ceiling on quantities computed from the event times, no in-place tensor method on a local that is read again, no log of a product of population "
+           "sizes; (M, extended) the time-tree models mark their heights outdated on every event (C11.H).",
+    'C11': "(H, extended) no change handler raises; (V, extended) the caller rule of C07.C; (M, extended) no constructor snapshot of a parameter value in the evolution models (C09.P).",
+    'C15': "(L, extended) every definition of the proposed state's density inside the loop is an evaluation of the target (self.joint); (Q, extended) the HMC adaptors write the "
+           "metric through the notifying setter (C11.W on the hmc package).",
+}
+for _p, _t in ADDENDA11.items():
+    CLAIMED[_p]['text'] = CLAIMED[_p]['text'].rstrip() + ' ' + _t
